@@ -39,8 +39,13 @@ func dkgView(inst *rig.Instance, account string) (*oracle.DKGView, error) {
 	// passphrase of the generation - every generation here is given "pass", by the client or as the participants'
 	// configured generation passphrase - and sign as SharePub.
 	if l, ok := a.(e2wtypes.AccountLocker); ok {
-		if err := l.Unlock(context.Background(), []byte("pass")); err != nil {
-			v.StoredShareProblem = "the stored share does not open with the generation's passphrase: " + err.Error()
+		err := l.Unlock(context.Background(), []byte("pass"))
+		if err != nil && inst.GenPass != "pass" {
+			// A request without a passphrase makes each participant use its own configured one.
+			err = l.Unlock(context.Background(), []byte(inst.GenPass))
+		}
+		if err != nil {
+			v.StoredShareProblem = "the stored share opens neither with the client's passphrase nor with this participant's own generation passphrase: " + err.Error()
 		} else if sg, ok := a.(e2wtypes.AccountSigner); ok {
 			msg := Root32(0x5a)
 			sig, err := sg.Sign(context.Background(), msg)
